@@ -19,6 +19,17 @@ Fixpoint mapi_from {A B} (f : nat -> A -> B) (i : nat) (l : list A) : list B :=
   match l with [] => [] | x :: r => f i x :: mapi_from f (S i) r end.
 Definition mapi {A B} (f : nat -> A -> B) (l : list A) : list B := mapi_from f 0 l.
 
+(* vector helpers of the translated loops: enumerate, in-bounds write *)
+Fixpoint enumerate_from {A} (i : nat) (l : list A) : list (nat * A) :=
+  match l with [] => [] | x :: r => (i, x) :: enumerate_from (S i) r end.
+Definition enumerate {A} (l : list A) : list (nat * A) := enumerate_from 0 l.
+Fixpoint set_nth {A} (l : list A) (i : nat) (v : A) : list A :=
+  match l, i with
+  | [], _ => []
+  | _ :: r, O => v :: r
+  | x :: r, S j => x :: set_nth r j v
+  end.
+
 (* ---- public keys ---- *)
 (* after the proposals: blank nodes have no key, updated / added leaves get the key of the
    proposal, everything else keeps its key *)
